@@ -6,6 +6,7 @@ mod exec;
 mod harness;
 mod jumbf;
 mod media;
+mod net;
 mod ops;
 mod props;
 mod report;
